@@ -82,7 +82,7 @@ func LoadWorld(repo string, rels []string) (*World, error) {
 				}
 			}
 		}
-		cfg := &packages.Config{Mode: packages.LoadAllSyntax, Dir: repo, Env: loadEnv()}
+		cfg := &packages.Config{Mode: packages.LoadAllSyntax | packages.NeedModule, Dir: repo, Env: loadEnv()}
 		pkgs, err := packages.Load(cfg, relPatterns(p1)...)
 		if err != nil {
 			return nil, err
@@ -112,7 +112,7 @@ func LoadWorld(repo string, rels []string) (*World, error) {
 		}
 		overlay[filepath.Join(pc.Dir, "zz_verif_gen.go")] = []byte(src)
 	}
-	cfg := &packages.Config{Mode: packages.LoadAllSyntax, Dir: repo, Env: loadEnv(), Overlay: overlay}
+	cfg := &packages.Config{Mode: packages.LoadAllSyntax | packages.NeedModule, Dir: repo, Env: loadEnv(), Overlay: overlay}
 	pkgs, err := packages.Load(cfg, relPatterns(all)...)
 	if err != nil {
 		return nil, err
@@ -138,6 +138,7 @@ func LoadWorld(repo string, rels []string) (*World, error) {
 		w.PPkgs[rel] = p
 		if p.Module != nil {
 			w.ModPath = p.Module.Path
+			modPath = p.Module.Path
 		}
 	}
 	for _, sp := range prog.AllPackages() {
